@@ -41,6 +41,11 @@ func sweep(cfg sweepCfg, op func(t *Tape) OpResult, visit func(l *Leaf) bool) (l
 		}
 		t := NewTape(TapeSpec{Mode: "choice", Choices: choices, Default: "zero"})
 		res := op(t)
+		if t.Unbound > 0 {
+			// the operation read the random source without announcing a bounded draw (hook H1):
+			// the enumerated tree is then not the whole choice tree and no law can be computed
+			panic(sentCannotDrive)
+		}
 		nd := len(t.Draws)
 		// bounds of the enumerated section actually reached
 		from := len(cfg.Prefix)
